@@ -16,6 +16,7 @@ class Injected(Exception):
 class State:
     faults: set = set()  # node ids (tawazi side) that must raise
     fail_fns: set = set()  # function names that raise on every call, on BOTH sides (reference and tawazi)
+    fail_args: set = set()  # symbolic leaves: a probe that receives one of them as a direct argument raises (both sides)
     ref_faults: set = set()  # (fn name, k-th call) for the reference side
     counts: Counter = Counter()  # tawazi-side entries per fn name
     ref_counts: Counter = Counter()
@@ -53,7 +54,7 @@ def mkprobe(name, shape=None, setup=False):
             with State.lock:
                 State.ref_counts[name] += 1
                 idx = State.ref_counts[name] - 1
-            if (name, idx) in State.ref_faults or name in State.fail_fns:
+            if (name, idx) in State.ref_faults or name in State.fail_fns or (State.fail_args and any(x in State.fail_args for x in a if isinstance(x, Sym))):
                 raise Injected(name)
             base = Sym(name, a, tuple(sorted(k.items())))
             if setup:
@@ -69,7 +70,8 @@ def mkprobe(name, shape=None, setup=False):
         with State.lock:
             State.counts[name] += 1
         B.park_here()
-        if (node is not None and node in State.faults) or name in State.fail_fns:
+        if (node is not None and node in State.faults) or name in State.fail_fns or (
+                State.fail_args and any(x in State.fail_args for x in a if isinstance(x, Sym))):
             B.ev("FEXIT", token=tok, node=node, fn=name, ok=False)
             raise Injected(node)
         if setup:
